@@ -2,14 +2,16 @@
 package main
 
 import (
-	"runtime/pprof"
 	"encoding/hex"
 	"encoding/json"
 	"flag"
 	"fmt"
 	"os"
+	"runtime/pprof"
 	"sort"
+	"strconv"
 	"strings"
+	"time"
 
 	"symgo/exec"
 )
@@ -83,6 +85,10 @@ func cmdJob(args []string) int {
 		f, _ := os.Create(*prof)
 		pprof.StartCPUProfile(f)
 		defer pprof.StopCPUProfile()
+		if d := os.Getenv("SYMGO_PROFSECS"); d != "" {
+			n, _ := strconv.Atoi(d)
+			go func() { time.Sleep(time.Duration(n) * time.Second); pprof.StopCPUProfile(); os.Exit(3) }()
+		}
 	}
 	res := w.RunJob(exec.JobSpec{Pkg: pkgPath(*pkg), Harness: *harness, Params: parseParams(*params)}, exec.JobOpts{Solver: *solver, TimeoutMS: 60000, Trace: *trace, Eager: *eager})
 	printJob(res)
